@@ -228,7 +228,7 @@ func stringXbytes(m dsl.Matcher) {
 //doc:note    See Go issue for details: https://github.com/golang/go/issues/25864
 func indexAlloc(m dsl.Matcher) {
 	m.Match(`strings.Index(string($x), $y)`).
-		Where(m["x"].Pure && m["y"].Pure).
+		Where(m["x"].Pure && m["y"].Pure && m["x"].Type.Is(`[]byte`)). // string(x) also converts runes, []rune and named strings
 		Report(`consider replacing $$ with bytes.Index($x, []byte($y))`)
 }
 
